@@ -177,6 +177,24 @@ pub fn page_of_str(s: &str) -> Page<'static> {
         _ => panic!("bad page {}", s),
     }
 }
+/// Like pages_of_str, but a literal whose byte length Page::from_bytes refuses is reported instead of panicking.
+pub fn try_pages_of_str(s: &str) -> Option<Vec<Page<'static>>> {
+    if s == "-" {
+        return Some(vec![]);
+    }
+    let mut out = vec![];
+    for lit in s.split('+') {
+        let p: Vec<&str> = lit.split('.').collect();
+        match p.as_slice() {
+            [w, h, b] => match Page::from_bytes(w.parse().unwrap(), h.parse().unwrap(), bytes_of_hex(b)) {
+                Ok(pg) => out.push(pg),
+                Err(_) => return None,
+            },
+            _ => panic!("bad page {}", lit),
+        }
+    }
+    Some(out)
+}
 pub fn pages_of_str(s: &str) -> Vec<Page<'static>> {
     if s == "-" {
         vec![]
